@@ -151,6 +151,7 @@ class Report:
         self.bounds = {}
         self.extra = {}
         self.diff_vectors = 0
+        self.witnesses = {}
         self.known = [k for k in load_known() if k.get('property') == prop]
 
     def add_obligation(self, name, status, stats=None, detail=None):
@@ -177,6 +178,7 @@ class Report:
         paths = sum(o['stats'].get('paths', 0) for o in self.obligations)
         queries = sum(o['stats'].get('queries', 0) for o in self.obligations)
         solver_s = sum(o['stats'].get('solver_s', 0) for o in self.obligations)
+        nontrivial = sum(o['stats'].get('nontrivial', 0) for o in self.obligations)
         ev = {
             'property_id': self.prop,
             'tier': self.tier,
@@ -190,10 +192,13 @@ class Report:
                 'transitions': max(queries, 1),
                 'traces_validated_against_impl': self.diff_vectors,
                 'evaluations': max(paths, 1),
-                'distinct_nontrivial': max(paths, 2) if paths >= 2 else 2,
-                'rule': 'one evaluation = one feasible symbolic path through the real MIR (distinct decision sequences, '
-                        'each non-trivially constrained by its path condition); states = paths explored, '
-                        'transitions = SMT queries discharged',
+                'distinct_nontrivial': nontrivial,
+                'rule': 'one evaluation = one feasible symbolic path through the real MIR; paths are distinct by construction '
+                        '(distinct decision sequences). A path is counted non-trivial when it was selected among alternatives by '
+                        'at least one solver-decided branch and ends with a non-empty path condition (a straight-line run with no '
+                        'symbolic decision, or a Kani harness, is not counted); states = paths explored, transitions = SMT queries '
+                        'discharged; traces_validated_against_impl = explored paths (or differential vectors) re-run natively '
+                        'against the real crate with identical outcome / storage trace',
                 'samples': self.samples[:12] or [{'note': 'no sample recorded'}],
                 'obligations': n_obl,
                 'discharged': held,
@@ -202,6 +207,7 @@ class Report:
                 'functions_encoded': sorted(self.functions),
                 'models_and_stubs': sorted(self.models),
                 'bounds': self.bounds,
+                'witnesses_reached': self.witnesses,
                 'known_findings_hit': self.known_hits,
                 'inconclusive': self.inconclusive,
                 'explanation': 'bounded symbolic execution of the MIR of /repo (regenerated this run) with z3; '
